@@ -118,6 +118,12 @@ def run(ctx, F):
                   expected="dominated by will_oom_on_alloc(size) == true", found=str(guard_strs(of, cs.bb)), where=where(of, cs.line),
                   key="C10.obvious|guard")
 
+    wo = F.fn("util::heap::gc_trigger::GCTrigger::will_oom_on_alloc")
+    rt = " ".join(show(strip(t)) for r, t in wo.flow.return_trees())
+    names = {c.name for c in live_calls(wo)}
+    ctx.judge("get_max_heap_size_in_pages" in names and "get_current_heap_size_in_pages" not in names and "get_max_heap_size_in_pages" in rt and "Gt" in rt, "C10.oom-after-gc",
+              "only requests larger than the *maximum* heap fail without a collection", expected="will_oom_on_alloc compares the request with policy.get_max_heap_size_in_pages()", found=rt[:200], where=where(wo),
+              key="C10.obvious|max-heap")
     # the slow path retries until thrown_oom is set: an obvious OOM must mark the request as failed on every path,
     # whether or not it may call the binding (otherwise alloc_slow_inline loops forever without ever collecting)
     marks = [c.bb for c in live_calls(of, q=ALLOC_OOM)]
